@@ -67,6 +67,8 @@ Theorem C16_SINH_ASINH : forall y, run body_SINH [val (run body_ASINH [y])] = OV
 Theorem C16_ACOSH_COSH : forall x, 0 <= x -> run body_ACOSH [val (run body_COSH [x])] = OVal x. Proof. exact ACOSH_COSH. Qed.
 Theorem C16_COSH_ACOSH : forall y, 1 <= y -> run body_COSH [val (run body_ACOSH [y])] = OVal y. Proof. exact COSH_ACOSH. Qed.
 Theorem C16_ATANH_TANH : forall x, run body_ATANH [val (run body_TANH [x])] = OVal x. Proof. exact ATANH_TANH. Qed.
+Theorem C16_TANH_ATANH : forall y, -1 < y < 1 -> run body_TANH [val (run body_ATANH [y])] = OVal y. Proof. exact TANH_ATANH. Qed.
+Theorem C16_COT_ACOT : forall y, run body_COT [val (run body_ACOT [y])] = OVal y. Proof. exact COT_ACOT. Qed.
 (* ATAN2(x, y) is the angle of the point (x, y), #DIV/0! only at the origin *)
 Theorem C16_ATAN2_error_only_at_origin : forall x y, is_error (run body_ATAN2 [x; y]) <-> (x = 0 /\ y = 0).
 Proof. exact ATAN2_error_only_at_origin. Qed.
